@@ -76,7 +76,16 @@ func (i *argumentsPropIter) next() (propIterItem, iterNextFunc) {
 		return propIterItem{}, nil
 	}
 	if prop, ok := item.value.(*mappedProperty); ok {
-		item.value = *prop.v
+		if prop.writable && prop.enumerable && prop.configurable {
+			item.value = *prop.v
+		} else {
+			item.value = &valueProperty{
+				value:        *prop.v,
+				writable:     prop.writable,
+				configurable: prop.configurable,
+				enumerable:   prop.enumerable,
+			}
+		}
 	}
 	return item, i.next
 }
